@@ -1877,7 +1877,9 @@ def pretty_str(s, ctx, split_pattern=None):
         if len(lines) <= 1:
             # Nothing to split. This includes the empty string,
             # for which str_to_lines yields no lines at all.
-            return flat_version
+            if is_native_type:
+                return flat_version
+            return build_fncall(ctx, constructor, argdocs=[flat_version])
 
         parts = intersperse(
             HARDLINE,
